@@ -1,6 +1,7 @@
 package main
 
 import (
+	"go/token"
 	"strings"
 
 	"golang.org/x/tools/go/ssa"
@@ -22,6 +23,7 @@ func checkC14(c *Ctx) {
 	c.NotDec = "FIFO order of the ring buffer under wrap-around as a functional property of the index arithmetic (beyond the overwritten-slot rule); scheduling fairness between goroutines."
 	c.Expect("C14.1", 8)
 	c.Expect("C14.2", 3)
+	c.Expect("C14.8", 4)
 
 	// C14.1 lock discipline
 	c.checkGuard("C14.1", guards["queue"])
@@ -38,6 +40,7 @@ func checkC14(c *Ctx) {
 	c14Popped(c)
 	c14Push(c)
 	c14QueueTables(c)
+	c14Registration(c)
 
 	// C14.6 AddEvent order
 	if ae := p.Method("core/eventloop", "EventLoop", "AddEvent"); ae != nil {
@@ -47,7 +50,9 @@ func checkC14(c *Ctx) {
 		for _, s := range callsIn(ae, false, func(cc *ssa.CallCommon) bool { return calleeIs(cc, push) }) {
 			n++
 			facts := fl.At(s)
-			ok := afterOf(facts, func(k string) bool { return strings.HasPrefix(k, "(*hs/core/eventloop.EventLoop).processEvent(p0, p1, c:true)") }) &&
+			ok := afterOf(facts, func(k string) bool {
+				return strings.HasPrefix(k, "(*hs/core/eventloop.EventLoop).processEvent(p0, p1, c:true)")
+			}) &&
 				fl.K.Key(s.Common().Args[1]) == "p1" && notNilOf(facts, is("p1"))
 			c.Check(ok, "C14.6", "AddEvent: in-AddEvent handlers run before the event is queued", p.Pos(s.Pos()),
 				"push(event) is preceded on every path by processEvent(event, true); nil events are not queued", "push not preceded by processEvent(event, true); facts: "+join(facts.Sorted()))
@@ -647,4 +652,207 @@ func c14QueueTables(c *Ctx) {
 	c.Check(len(bad) == 0 && nStoreTail == 1, "C14.7", "queue.push: slot, tail and head updates of a ring buffer", p.FuncPos(push),
 		"the entry goes to tail+1 (0 when that is the end), which becomes the tail; the head advances by one (wrapping) only when the slot is the head (overflow) and is set on the first push",
 		join(bad))
+}
+
+// c14Registration (C14.8): integrity of the handler table. A slot is occupied only by a
+// complete handler (callback and options); the release function clears only its own
+// registration, i.e. a repeated call cannot clear a slot that was re-occupied in between;
+// nothing else writes the table.
+func c14Registration(c *Ctx) {
+	p := c.P
+	reg := p.Func("core/eventloop", "Register")
+	if reg == nil {
+		c.Unresolved("C14.8", "Register", "anchor missing")
+		return
+	}
+	isTable := func(k string) bool { return strings.Contains(k, kEL+"handlers[") }
+	// all writes to elements of EventLoop.handlers in the module
+	type tw struct {
+		fn    *ssa.Function
+		in    ssa.Instruction
+		field string // "" = whole element
+		val   ssa.Value
+	}
+	var writes []tw
+	for _, fn := range p.ModFuncs {
+		if strings.HasSuffix(p.FuncPos(fn), "_test.go") {
+			continue
+		}
+		k := NewKeyer(p, fn)
+		eachInstr(fn, func(in ssa.Instruction) {
+			switch x := in.(type) {
+			case *ssa.Store:
+				switch a := x.Addr.(type) {
+				case *ssa.IndexAddr:
+					if isTable(k.Key(a.X) + "[") {
+						writes = append(writes, tw{fn, in, "", x.Val})
+					}
+				case *ssa.FieldAddr:
+					if ia, ok := a.X.(*ssa.IndexAddr); ok && isTable(k.Key(ia.X)+"[") {
+						writes = append(writes, tw{fn, in, fieldVar(a.X.Type(), a.Field).Name(), x.Val})
+					}
+				}
+			case *ssa.MapUpdate:
+				if strings.HasSuffix(k.Key(x.Map), kEL+"handlers") {
+					writes = append(writes, tw{fn, in, "map", x.Value})
+				}
+			}
+		})
+	}
+	inRegister := func(fn *ssa.Function) bool {
+		for f := fn; f != nil; f = f.Parent() {
+			if f == reg || f.Origin() == reg {
+				return true
+			}
+		}
+		return false
+	}
+	var foreign []string
+	nOcc, nRel := 0, 0
+	for _, w := range writes {
+		if !inRegister(w.fn) {
+			foreign = append(foreign, p.InstrPos(w.in)+" in "+w.fn.String())
+			continue
+		}
+		if w.fn.Origin() != nil && w.fn.Origin() != w.fn || (w.fn.Parent() != nil && w.fn.Parent().Origin() != nil && w.fn.Parent().Origin() != w.fn.Parent()) {
+			continue // instantiation of the generic body: the body itself is analysed
+		}
+		switch {
+		case w.fn == reg && (w.field == "" || w.field == "map"):
+			nOcc++
+			// the stored value is the complete handler built from callback and options
+			ok := false
+			switch w.field {
+			case "":
+				ok = w.val.Type().String() == modPath+"/core/eventloop.handler"
+			case "map":
+				if call, isCall := w.val.(*ssa.Call); isCall {
+					if b, isB := call.Call.Value.(*ssa.Builtin); isB && b.Name() == "append" {
+						ok = true
+					}
+				}
+			}
+			c.Check(ok, "C14.8/occupy", "Register: a slot is occupied by the complete handler", p.InstrPos(w.in),
+				"the handler value (callback and options) is stored as a whole / appended", "the table entry is not written with a complete handler value")
+		case w.fn == reg:
+			nOcc++
+			c.Violated("C14.8/occupy", "Register: a slot is occupied by the complete handler", p.InstrPos(w.in),
+				"only field "+w.field+" of a re-used slot is written: the new handler runs with the options (priority, in-AddEvent mode) of the slot's previous occupant")
+		default:
+			// a closure of Register: the release function
+			nRel++
+			okVal := w.field == "callback" && isNilConst(w.val)
+			once := c14ReleasedOnce(p, w.fn, w.in)
+			c.Check(okVal && once == "", "C14.8/release", "Register: the release function clears its own registration only", p.InstrPos(w.in),
+				"callback := nil, reached at most once per registration (guard flag set in the same critical section, or sync.Once)",
+				map[bool]string{true: once, false: "the release function writes " + w.field + " with a value other than nil"}[okVal])
+		}
+	}
+	c.Check(len(foreign) == 0, "C14.8/writers", "EventLoop.handlers entries are written only by Register and its release function", "core/eventloop",
+		itoa(len(writes))+" writes, all inside Register", "written outside Register: "+join(foreign))
+	if nOcc < 2 || nRel < 1 {
+		c.Unresolved("C14.8", "Register", "expected the append, the slot re-use store and the release store; found "+itoa(nOcc)+" occupying and "+itoa(nRel)+" releasing writes")
+	}
+}
+
+// c14ReleasedOnce decides that the clearing store `in` of closure fn runs at most once per
+// registration. Accepted idioms: (1) a captured bool that is false at creation, tested
+// before the store (the store is unreachable once it is true) and set to true on every
+// path from the test to the store or the return; (2) fn is only ever passed to
+// (*sync.Once).Do. It returns "" or the reason.
+func c14ReleasedOnce(p *Prog, fn *ssa.Function, in ssa.Instruction) string {
+	// idiom 2
+	if par := fn.Parent(); par != nil {
+		onlyOnce, used := true, false
+		eachInstr(par, func(x ssa.Instruction) {
+			mc, ok := x.(*ssa.MakeClosure)
+			if !ok || mc.Fn != fn || mc.Referrers() == nil {
+				return
+			}
+			for _, r := range *mc.Referrers() {
+				used = true
+				call, ok := r.(ssa.CallInstruction)
+				if !ok || call.Common().StaticCallee() == nil || call.Common().StaticCallee().String() != "(*sync.Once).Do" {
+					onlyOnce = false
+				}
+			}
+		})
+		if used && onlyOnce && par.Parent() != nil {
+			return ""
+		}
+	}
+	fl := NewFlow(p, fn)
+	for _, b := range fn.Blocks {
+		iff, ok := b.Instrs[len(b.Instrs)-1].(*ssa.If)
+		if !ok {
+			continue
+		}
+		cond, neg := iff.Cond, false
+		if u, ok := cond.(*ssa.UnOp); ok && u.Op == token.NOT {
+			cond, neg = u.X, true
+		}
+		ld, ok := cond.(*ssa.UnOp)
+		if !ok || ld.Op != token.MUL {
+			continue
+		}
+		fv, ok := ld.X.(*ssa.FreeVar)
+		if !ok {
+			continue
+		}
+		setSucc, clearSucc := b.Succs[0], b.Succs[1] // flag set -> Succs[0]
+		if neg {
+			setSucc, clearSucc = clearSucc, setSucc
+		}
+		isStore := func(x ssa.Instruction) bool { return x == in }
+		setsFlag := func(x ssa.Instruction) bool {
+			st, ok := x.(*ssa.Store)
+			return ok && st.Addr == fv && isBoolConst(st.Val, true)
+		}
+		// (a) with the flag set the store is unreachable
+		if w := cfgSearch(fl, nil, setSucc, isStore, nil, nil); w != nil {
+			continue
+		}
+		// (b) the store is reachable only through the flag test
+		if !b.Dominates(in.Block()) {
+			continue
+		}
+		// (c) from the clear edge, every path to the store's completion sets the flag: no path reaches a return without setting it
+		isRet := func(x ssa.Instruction) bool { _, ok := x.(*ssa.Return); return ok }
+		if w := cfgSearch(fl, nil, clearSucc, isRet, setsFlag, nil); w != nil {
+			return "the guard flag is not set on the path to " + p.InstrPos(w) + ": a second call clears the slot again"
+		}
+		// (d) the flag starts false and only this closure touches it
+		par := fn.Parent()
+		var cell ssa.Value
+		eachInstr(par, func(x ssa.Instruction) {
+			if mc, ok := x.(*ssa.MakeClosure); ok && mc.Fn == fn {
+				for i, fvv := range fn.FreeVars {
+					if fvv == fv && i < len(mc.Bindings) {
+						cell = mc.Bindings[i]
+					}
+				}
+			}
+		})
+		al, ok := cell.(*ssa.Alloc)
+		if !ok || al.Referrers() == nil {
+			return "the guard flag is not a local of the registration"
+		}
+		for _, r := range *al.Referrers() {
+			switch x := r.(type) {
+			case *ssa.Store:
+				if x.Addr != al || !isBoolConst(x.Val, false) {
+					return "the guard flag is written outside the release function at " + p.InstrPos(x)
+				}
+			case *ssa.MakeClosure:
+				if x.Fn != fn {
+					return "the guard flag is shared with another closure"
+				}
+			case *ssa.DebugRef:
+			default:
+				return "the guard flag escapes at " + p.InstrPos(r)
+			}
+		}
+		return ""
+	}
+	return "the slot is cleared on every call: a repeated call (TimeoutContext releases the view-change handler from its timeout handler and again from the caller's cancel) clears a slot that Register has re-used for another handler"
 }
